@@ -13,6 +13,7 @@ package main
 import (
 	"fmt"
 	"os"
+	"sort"
 	"strings"
 	"time"
 
@@ -125,6 +126,7 @@ type planOutcome struct {
 	real     realResult
 	model    string // raw answer of the driver
 	agree    bool
+	exact    bool // the model's script is literally the real one (no tie exemption)
 	crash      string // known crash class of the unrepaired code, "" if none
 	oracleOnly bool   // model and code disagree on the call list; the oracle still runs on the real script
 }
@@ -219,7 +221,7 @@ func (e *engine) planBoth(c *Case, store *Config, stream string) planOutcome {
 		out.oracleOnly = true // the oracle does not depend on the model: still check the real script
 		return out
 	}
-	out.agree = true
+	out.agree, out.exact = true, true
 	return out
 }
 
@@ -234,6 +236,56 @@ func (e *engine) loadTie(c *Case) {
 		e.res.Disagree("load", c, "error: "+err.Error(), model)
 	} else if impl != model {
 		e.res.Disagree("load", c, impl, model)
+	}
+	// oracle that does not go through the Lean model: LoadDevice keeps exactly the objects whose id starts
+	// with "Netspoc", each once, in the order of the manager's listing, whatever the page size
+	// (written down here from the store the test manager serves)
+	want := renderLoaded(loaded(c.Store))
+	e.res.Count("load-oracle")
+	if err != nil || impl != want {
+		got := impl
+		if err != nil {
+			got = "error: " + err.Error()
+		}
+		e.fail("load", "other", nil, fmt.Sprintf("LoadDevice with pages of %d keeps %q, the manager holds %q", c.PageSize, got, want), c)
+	}
+}
+
+func renderLoaded(l *Config) string {
+	var ps, gs, ss []string
+	for _, p := range l.Policies {
+		var rs []string
+		for _, r := range p.Rules {
+			rs = append(rs, r.Id)
+		}
+		ps = append(ps, p.Id+":"+strings.Join(rs, ";"))
+	}
+	for _, g := range l.Groups {
+		gs = append(gs, g.Id)
+	}
+	for _, x := range l.Services {
+		ss = append(ss, x.Id)
+	}
+	return strings.Join(ps, ",") + "\t" + strings.Join(gs, ",") + "\t" + strings.Join(ss, ",")
+}
+
+// acceptOracle: whether the three files are accepted is known to the GENERATOR (it builds the raw
+// file valid, or plants exactly one named offence), independently of the Lean model of checkRaw.
+func (e *engine) acceptOracle(c *Case, po planOutcome) {
+	switch {
+	case c.Expect == "":
+		e.res.Count("accept-oracle:no-expectation")
+	case c.Expect == "accept":
+		e.res.Count("accept-oracle:expect-accept")
+		if po.real.Kind == "err" && strings.Contains(po.real.Msg, "Must ") {
+			e.fail("accept", "valid_files_refused", nil, "files built valid are refused: "+po.real.Msg, c)
+		}
+	case strings.HasPrefix(c.Expect, "reject:"):
+		e.res.Count("accept-oracle:expect-reject")
+		want := strings.TrimPrefix(c.Expect, "reject:")
+		if po.real.Kind != "err" || !strings.Contains(po.real.Msg, want) {
+			e.fail("accept", "invalid_raw_file_accepted", nil, fmt.Sprintf("raw file with a planted offence; expected the diagnostic %q, got %s %q", want, po.real.Kind, po.real.Msg), c)
+		}
 	}
 }
 
@@ -273,10 +325,56 @@ func (e *engine) run(store, T *Config, calls []Call, prefixes bool) (runOutcome,
 	return out, nil
 }
 
-func hasSpacedSE(T *Config) bool {
-	for _, p := range T.Policies {
+// ---------------------------------------------------------------- attribution of a failure to a finding
+//
+// A failure is attributed to a known finding only if EVERY one of the following holds; otherwise its
+// predicate is "other" and it is a violation:
+//   - the Lean model of the unchanged planner produces the same script on this input (`agree`),
+//   - the side condition of the finding fails on the input (flag computed by the Lean model: `unmanagedIndep`,
+//     `compactT`, `distinctT`),
+//   - the failing OBJECT is one the Lean model names for that input (`unmRefs`, `spacedRules`, `twinGroups`),
+//   - the reason / shape of the failure is the one of the finding (pinned in the signature).
+
+func listFlag(cl map[string]string, k string) map[string]bool {
+	m := map[string]bool{}
+	for _, x := range strings.Split(cl[k], ",") {
+		if x != "" {
+			m[x] = true
+		}
+	}
+	return m
+}
+
+// reasonClass strips the object id from the reason the strict store gives.
+func reasonClass(status string) string {
+	f := strings.SplitN(status, ":", 3)
+	if len(f) < 3 {
+		return status
+	}
+	r := f[2]
+	for _, p := range []string{"DELETE of referenced group", "DELETE of referenced service", "DELETE of missing", "PUT of existing",
+		"PUT of group", "PUT of policy", "PUT of rule", "PATCH of missing", "PATCH of rule", "PATCH of", "POST to missing", "POST add of present",
+		"POST remove of absent", "POST remove would leave the expression"} {
+		if strings.HasPrefix(r, p) {
+			if strings.HasSuffix(r, "with an empty expression") || strings.HasSuffix(r, "empty") {
+				return "empty expression"
+			}
+			if strings.HasSuffix(r, "referring to a missing object") || strings.HasSuffix(r, "refers to a missing object") {
+				return p + " referring to a missing object"
+			}
+			return p
+		}
+	}
+	return r
+}
+
+func managedRuleRefers(S *Config, path string) bool {
+	for _, p := range S.Policies {
+		if !strings.HasPrefix(p.Id, "Netspoc") {
+			continue
+		}
 		for _, r := range p.Rules {
-			if strings.Contains(r.SvcEntries, " ") {
+			if r.Src == path || r.Dst == path || r.Service == path {
 				return true
 			}
 		}
@@ -284,23 +382,148 @@ func hasSpacedSE(T *Config) bool {
 	return false
 }
 
-// pred classifies the root cause of an oracle failure from the decidable side conditions.
-func pred(cl map[string]string, T *Config, status string) string {
-	switch {
-	case cl["policyIds"] == "0":
-		return "raw_policy_id_without_prefix"
-	case cl["idsOK"] == "0":
-		return "ids_clash_after_rename"
-	case cl["unmanagedIndep"] == "0":
-		return "unmanaged_rule_refers_to_managed_object"
-	case hasSpacedSE(T):
-		return "inline_service_entries_not_compact"
-	case cl["sortTies"] == "1":
-		return "rules_tie_under_sort"
-	case cl["distinctT"] == "0":
-		return "target_groups_with_equal_content"
+// execAttr: a call rejected by the manager.  cl: flags of the store the script was planned from;
+// at: the store at the moment of the rejection.
+func execAttr(cl map[string]string, at *Config, calls []Call, failIdx int, status string, agree bool) (string, map[string]any) {
+	rc := reasonClass(status)
+	attrs := map[string]any{"reason": rc, "model_agrees": agree}
+	if failIdx < 0 || failIdx >= len(calls) || !agree || cl["unmanagedIndep"] != "0" {
+		return "other", attrs
 	}
-	return "other"
+	k := calls[failIdx]
+	key, path := "", ""
+	switch {
+	case k.Kind == "DG" && rc == "DELETE of referenced group":
+		key, path = "g:"+k.Id, gpath(k.Id)
+	case k.Kind == "DS" && rc == "DELETE of referenced service":
+		key, path = "s:"+k.Id, spath(k.Id)
+	default:
+		return "other", attrs
+	}
+	// the object is one that a rule outside Netspoc's scope names, and no managed rule names it any more
+	if !listFlag(cl, "unmRefs")[key] || managedRuleRefers(at, path) {
+		return "other", attrs
+	}
+	// the removals come last: nothing but removals of unused objects is left undone
+	for _, r := range calls[failIdx:] {
+		if r.Kind != "DG" && r.Kind != "DS" {
+			return "other", attrs
+		}
+	}
+	attrs["phase"] = "removal-of-unused-objects"
+	attrs["object"] = "named-by-unmanaged-rule"
+	return "unmanaged_rule_refers_to_managed_object", attrs
+}
+
+func findRule(S *Config, pid, rid string) *Rule {
+	for i := range S.Policies {
+		if S.Policies[i].Id == pid {
+			for j := range S.Policies[i].Rules {
+				if S.Policies[i].Rules[j].Id == rid {
+					return &S.Policies[i].Rules[j]
+				}
+			}
+		}
+	}
+	return nil
+}
+
+func groupContent(S *Config, path string) (string, bool) {
+	for _, g := range S.Groups {
+		if gpath(g.Id) == path {
+			a := append([]string(nil), g.Addrs...)
+			sort.Strings(a)
+			return strings.Join(a, ","), true
+		}
+	}
+	return "", false
+}
+
+// idemAttr: a compare from a converged state `from` that reports changes again.  cl: flags of (from, T).
+func idemAttr(cl map[string]string, from, T *Config, calls []Call, agree, relisted bool) (string, map[string]any) {
+	attrs := map[string]any{"model_agrees": agree, "compactT": cl["compactT"] == "1", "distinctT": cl["distinctT"] == "1"}
+	if !agree || len(calls) == 0 {
+		return "other", attrs
+	}
+	// (a) inline service entries written with white space: only such rules are deleted and re-created
+	if cl["compactT"] == "0" {
+		spaced := listFlag(cl, "spacedRules")
+		want := map[string]bool{} // compact form of the entries of the target rules the model names
+		for _, p := range T.Policies {
+			for _, r := range p.Rules {
+				if spaced[p.Id+"/"+r.Id] {
+					want[p.Id+"\x00"+compactStr(r.SvcEntries)] = true
+				}
+			}
+		}
+		ok, nd, na := true, 0, 0
+		for _, k := range calls {
+			switch k.Kind {
+			case "DR":
+				r := findRule(from, k.Id, k.Rid)
+				ok = ok && r != nil && want[k.Id+"\x00"+r.SvcEntries]
+				nd++
+			case "PR": // PUT of a rule; the body is marshalled, which compacts the inline entries
+				ok = ok && k.Rule != nil && k.Rule.SvcEntries != "" && want[k.Id+"\x00"+compactStr(k.Rule.SvcEntries)]
+				na++
+			default:
+				ok = false
+			}
+		}
+		if ok && nd == na {
+			attrs["only"] = "delete-and-recreate-of-rules-with-spaced-service-entries"
+			return "inline_service_entries_not_compact", attrs
+		}
+		return "other", attrs
+	}
+	// (b) target groups with equal content, manager lists its objects in another order: only rules
+	// that use such a group are touched
+	if relisted && cl["distinctT"] == "0" {
+		twins := map[string]bool{}
+		ids := listFlag(cl, "twinGroups")
+		for _, g := range T.Groups {
+			if ids[g.Id] {
+				c, _ := groupContent(T, gpath(g.Id))
+				twins[c] = true
+			}
+		}
+		created := map[string]string{} // groups this very plan creates
+		for _, k := range calls {
+			if k.Kind == "PG" {
+				a := append([]string(nil), k.Addrs...)
+				sort.Strings(a)
+				created[gpath(k.Id)] = strings.Join(a, ",")
+			}
+		}
+		isTwin := func(path string) bool {
+			if c, ok := created[path]; ok {
+				return twins[c]
+			}
+			c, ok := groupContent(from, path)
+			return ok && twins[c]
+		}
+		usesTwin := func(r *Rule) bool {
+			return r != nil && (isTwin(r.Src) || isTwin(r.Dst))
+		}
+		ok := true
+		for _, k := range calls {
+			switch k.Kind {
+			case "DR":
+				ok = ok && usesTwin(findRule(from, k.Id, k.Rid))
+			case "PR", "AR": // PUT / PATCH of a rule
+				ok = ok && usesTwin(k.Rule)
+			case "PG", "DG": // the twin is created under another id / removed
+				ok = ok && isTwin(gpath(k.Id))
+			default:
+				ok = false
+			}
+		}
+		if ok {
+			attrs["only"] = "rules-and-groups-with-a-twin"
+			return "target_groups_with_equal_content", attrs
+		}
+	}
+	return "other", attrs
 }
 
 // owner: which property a check belongs to.
@@ -311,14 +534,18 @@ var owner = map[string]string{
 	"conv-before-removal": "C04",
 }
 
-func (e *engine) fail(check, pr, what string, c *Case) {
+func (e *engine) fail(check, pr string, attrs map[string]any, what string, c *Case) {
 	key := "check-failed:" + check + ":" + pr
 	e.res.Count(key)
 	// a call the manager rejects breaks C08 and, because the script is then not executed, C04 as well
 	if !strings.Contains(owner[check], e.prop) {
 		return
 	}
-	e.res.Fail(map[string]any{"pred": pr, "check": check, "backend": "NSX"}, what, c)
+	sig := map[string]any{"pred": pr, "check": check, "backend": "NSX"}
+	for k, v := range attrs {
+		sig[k] = v
+	}
+	e.res.Fail(sig, what, c)
 }
 
 func nontrivial(calls []Call) bool {
@@ -343,6 +570,7 @@ func (e *engine) oneCase(c *Case) {
 		e.loadTie(c)
 	}
 	po := e.planBoth(c, c.Store, "plan")
+	e.acceptOracle(c, po)
 	if po.crash != "" {
 		res.Eval(canon, false)
 		res.Count("crash:" + po.crash)
@@ -371,29 +599,60 @@ func (e *engine) oneCase(c *Case) {
 		res.Count("oracle-skipped:input-not-well-formed")
 		return
 	}
-	pr := pred(cl, T, "")
+	hint := map[string]any{}
+	for _, k := range []string{"policyIds", "idsOK", "unmanagedIndep", "compactT", "distinctT"} {
+		if cl[k] == "0" {
+			hint["hint"] = k + "=0"
+			break
+		}
+	}
 	wantPrefixes := len(calls) <= e.ctx.N(25, 120)
 	ro, err := e.run(c.Store, T, calls, wantPrefixes)
 	if err != nil {
 		res.Disagree("driver", c, err.Error(), "")
 		return
 	}
+	c2 := *c
+	c2.Mode = "http"
+	onlyRemovals := func(l []Call) bool {
+		for _, k := range l {
+			if k.Kind != "DG" && k.Kind != "DS" {
+				return false
+			}
+		}
+		return true
+	}
 	// C08: every call accepted by the strict store
 	if ro.status != "ok" {
-		e.fail("exec", pr, fmt.Sprintf("call %d of %d is rejected by the manager: %s", ro.failIdx, len(calls), ro.status), c)
+		pr, at := execAttr(cl, ro.final, calls, ro.failIdx, ro.status, po.exact)
+		e.fail("exec", pr, at, fmt.Sprintf("call %d of %d is rejected by the manager: %s", ro.failIdx, len(calls), ro.status), c)
+		// the script stops there.  If only removals of unused objects are left undone, the policies must
+		// already be equivalent and nothing outside the scope may have changed; a further compare may
+		// only ask for removals.
+		if ro.failIdx >= 0 && onlyRemovals(calls[ro.failIdx:]) {
+			res.Count("exec-rejected:judged-before-removal")
+			if ro.flags["conv"] != "1" || ro.flags["frame"] != "1" {
+				e.fail("conv-before-removal", "other", hint, fmt.Sprintf("script rejected at call %d (removals only are left), but policies are not equivalent / frame broken: %v", ro.failIdx, ro.flags), c)
+			}
+			if pa := e.planBoth(&c2, ro.final, "plan after rejection"); pa.real.Kind == "ok" && !onlyRemovals(pa.real.Calls) {
+				e.fail("idem", "other", hint, "after a script rejected in its removal phase a further compare asks for more than removals: "+showCall(pa.real.Calls[0]), c)
+			}
+		} else {
+			res.Count("exec-rejected:not-in-removal-phase")
+		}
 	} else {
 		res.Count("exec:all-accepted")
 		for _, chk := range []string{"conv", "svc", "grp", "frame"} {
 			if ro.flags[chk] != "1" {
-				e.fail(chk, pr, "after executing the script: "+chk+" does not hold", c)
+				e.fail(chk, "other", hint, "after executing the script: "+chk+" does not hold", c)
 			}
 		}
 		if ro.flags["wf"] != "1" {
-			e.fail("exec", pr, "final store not well-formed", c)
+			e.fail("wf", "other", hint, "final store not well-formed", c)
 		}
 	}
 	if ro.flags["scope"] != "1" {
-		e.fail("scope", pr, "a call addresses an object whose id lacks the Netspoc prefix", c)
+		e.fail("scope", "other", hint, "a call addresses an object whose id lacks the Netspoc prefix", c)
 	}
 	// ApplyCommands sends exactly the planned calls, and stops at the first failure
 	if c.Mode == "http" && e.rng.Chance(8) && len(calls) > 0 {
@@ -409,46 +668,46 @@ func (e *engine) oneCase(c *Case) {
 		}
 		res.Count("apply-checked")
 		if perr != nil || encCalls(sent) != encCalls(want) || (k >= 0) != (applyErr != "") {
-			e.fail("apply", "other", fmt.Sprintf("ApplyCommands with failure at %d sent %d calls (planned %d), err=%q", k, len(sent), len(calls), applyErr), c)
+			e.fail("apply", "other", nil, fmt.Sprintf("ApplyCommands with failure at %d sent %d calls (planned %d), err=%q", k, len(sent), len(calls), applyErr), c)
 		}
 	}
-	if ro.status != "ok" {
-		return
-	}
-	// idempotence: the second plan from the reached state is empty (and the model agrees)
-	c2 := *c
-	c2.Mode = "http"
-	po2 := e.planBoth(&c2, ro.final, "second plan")
-	switch {
-	case po2.crash != "":
-		e.fail("idem", po2.crash, "second plan panics: "+po2.real.Msg, c)
-	case po2.real.Kind == "ok" && len(po2.real.Calls) > 0:
-		e.fail("idem", pr, fmt.Sprintf("second compare reports %d changes, first: %s", len(po2.real.Calls), showCall(po2.real.Calls[0])), c)
-	case po2.real.Kind == "ok":
-		res.Count("idem:empty")
-		// the manager may list rules, groups and services in any order: the plan must stay empty
-		// (plan_unchanged is about multisets of rules, not about the order of listing)
-		sh := cloneConfig(ro.final)
-		for i := range sh.Policies {
-			Shuffle(e.rng, sh.Policies[i].Rules)
+	if ro.status == "ok" {
+		// idempotence: the second plan from the reached state is empty (and the model agrees)
+		po2 := e.planBoth(&c2, ro.final, "second plan")
+		switch {
+		case po2.crash != "":
+			e.fail("idem", po2.crash, nil, "second plan panics: "+po2.real.Msg, c)
+		case po2.real.Kind == "ok" && len(po2.real.Calls) > 0:
+			cl2 := e.class(ro.final, T)
+			pr, at := idemAttr(cl2, loaded(ro.final), T, po2.real.Calls, po2.exact, false)
+			e.fail("idem", pr, at, fmt.Sprintf("second compare reports %d changes: %s", len(po2.real.Calls), cut(strings.ReplaceAll(showCalls(po2.real.Calls), "\n", " | "), 1200)), c)
+		case po2.real.Kind == "ok":
+			res.Count("idem:empty")
+			// the manager may list rules, groups and services in any order: the plan must stay empty
+			// (plan_unchanged is about multisets of rules, not about the order of listing)
+			sh := cloneConfig(ro.final)
+			for i := range sh.Policies {
+				Shuffle(e.rng, sh.Policies[i].Rules)
+			}
+			Shuffle(e.rng, sh.Groups)
+			Shuffle(e.rng, sh.Services)
+			Shuffle(e.rng, sh.Policies)
+			po3 := e.planBoth(&c2, sh, "second plan, other listing order")
+			if po3.real.Kind == "ok" && len(po3.real.Calls) > 0 {
+				pr, at := idemAttr(e.class(sh, T), loaded(sh), T, po3.real.Calls, po3.exact, true)
+				e.fail("idem-relisted", pr, at, fmt.Sprintf("compare after approve reports %d changes when the manager lists its objects in another order: %s",
+					len(po3.real.Calls), cut(strings.ReplaceAll(showCalls(po3.real.Calls), "\n", " | "), 1200)), c)
+			} else if po3.real.Kind == "ok" {
+				res.Count("idem:empty-after-relisting")
+			}
 		}
-		Shuffle(e.rng, sh.Groups)
-		Shuffle(e.rng, sh.Services)
-		Shuffle(e.rng, sh.Policies)
-		po3 := e.planBoth(&c2, sh, "second plan, other listing order")
-		if po3.real.Kind == "ok" && len(po3.real.Calls) > 0 {
-			e.fail("idem", pr, fmt.Sprintf("compare after approve reports %d changes when the manager lists its objects in another order, first: %s",
-				len(po3.real.Calls), showCall(po3.real.Calls[0])), c)
-		} else if po3.real.Kind == "ok" {
-			res.Count("idem:empty-after-relisting")
-		}
 	}
-	// C10: resume from the state after every proper prefix
-	if !wantPrefixes || len(ro.states) != len(calls)+1 {
+	// C10: resume from the state after every proper prefix that was executed
+	if !wantPrefixes || len(ro.states) == 0 {
 		return
 	}
 	cuts := []int{}
-	for k := 1; k < len(calls); k++ {
+	for k := 1; k < len(calls) && k < len(ro.states); k++ {
 		cuts = append(cuts, k)
 	}
 	if !e.ctx.Thorough() && len(cuts) > 6 {
@@ -463,35 +722,49 @@ func (e *engine) oneCase(c *Case) {
 		}
 		pk := e.planBoth(&c2, sk, "resume plan")
 		if pk.crash != "" {
-			e.fail("resume-plan", pk.crash, fmt.Sprintf("planner panics on the state after %d of %d calls: %s", k, len(calls), pk.real.Msg), c)
+			e.fail("resume-plan", pk.crash, nil, fmt.Sprintf("planner panics on the state after %d of %d calls: %s", k, len(calls), pk.real.Msg), c)
 			continue
 		}
 		if (!pk.agree && !pk.oracleOnly) || pk.real.Kind != "ok" {
 			continue
 		}
-		clk := parseFlags(e.drv.Ask("class\t" + encConfig(sk) + "\t" + encConfig(T)))
-		prk := pred(clk, T, "")
 		rk, err := e.run(sk, T, pk.real.Calls, false)
 		if err != nil {
 			res.Disagree("driver", c, err.Error(), "")
 			continue
 		}
 		if rk.status != "ok" {
-			e.fail("resume-exec", prk, fmt.Sprintf("resumed after %d of %d calls: %s", k, len(calls), rk.status), c)
+			pr, at := execAttr(e.class(sk, T), rk.final, pk.real.Calls, rk.failIdx, rk.status, pk.exact)
+			e.fail("resume-exec", pr, at, fmt.Sprintf("resumed after %d of %d calls: %s", k, len(calls), rk.status), c)
+			if rk.failIdx >= 0 && onlyRemovals(pk.real.Calls[rk.failIdx:]) && (rk.flags["conv"] != "1" || rk.flags["frame"] != "1") {
+				e.fail("resume-conv", "other", hint, fmt.Sprintf("resumed after %d of %d calls, rejected in the removal phase: not equivalent (%v)", k, len(calls), rk.flags), c)
+			}
 			continue
 		}
 		if rk.flags["conv"] != "1" || rk.flags["svc"] != "1" || rk.flags["grp"] != "1" || rk.flags["frame"] != "1" {
-			e.fail("resume-conv", prk, fmt.Sprintf("resumed after %d of %d calls: not equivalent (%v)", k, len(calls), rk.flags), c)
+			e.fail("resume-conv", "other", hint, fmt.Sprintf("resumed after %d of %d calls: not equivalent (%v)", k, len(calls), rk.flags), c)
 			continue
 		}
 		res.Count("resume:converged")
 		if e.ctx.Thorough() || e.rng.Chance(30) {
 			p3 := e.planBoth(&c2, rk.final, "resume second plan")
 			if p3.real.Kind == "ok" && len(p3.real.Calls) > 0 {
-				e.fail("resume-idem", prk, fmt.Sprintf("resumed after %d calls: further compare reports %d changes", k, len(p3.real.Calls)), c)
+				pr, at := idemAttr(e.class(rk.final, T), loaded(rk.final), T, p3.real.Calls, p3.exact, false)
+				e.fail("resume-idem", pr, at, fmt.Sprintf("resumed after %d calls: further compare reports %d changes", k, len(p3.real.Calls)), c)
 			}
 		}
 	}
+}
+
+func cut(s string, n int) string {
+	if len(s) > n {
+		return s[:n] + "…"
+	}
+	return s
+}
+
+func (e *engine) class(S, T *Config) map[string]string {
+	return parseFlags(e.drv.Ask("class\t" + encConfig(S) + "\t" + encConfig(T)))
 }
 
 func (ro runOutcome) flagsNonEmptyOK(s *Config) bool {
